@@ -2251,6 +2251,9 @@ func checkClose(c *checkCtx) {
 			}
 		}
 	}
+	if !stop {
+		clsDirectedExtra(c)
+	}
 	for _, pt := range points {
 		c.count("hook hits "+vpPointNames[pt], int64(hitTotals[pt]))
 	}
@@ -2266,4 +2269,221 @@ func checkClose(c *checkCtx) {
 	}
 	_ = nontriv
 	_ = execs
+}
+
+// ---------------------------------------------------------------------------------------------
+// C10, two further directed scenarios (called from checkClose):
+//
+//	session-end-after-peer-close: a callback-mode stream whose peer has closed (OnRemoteClose reported, the local user has not
+//	    closed yet) when the session ends (local Session.Close or the peer's): the closure the end already knew about must not
+//	    be reported again; a stream that was still open at that moment gets exactly one close callback.
+//	putback-in-ondata: a pooled stream in callback mode is given back (streamPool.putOrCloseStream, what SessionManager.PutBack
+//	    does) from inside OnData while it still holds unread data: the pool must close it, and that close - deferred to the
+//	    running callback - must complete: state closed, gone from the session's table, OnLocalClose once, the peer sees the end.
+
+type cls2Cb struct {
+	nData, nLocal, nRemote int32
+	onData                 func(r BufferReader)
+}
+
+func (c *cls2Cb) OnData(r BufferReader) {
+	atomic.AddInt32(&c.nData, 1)
+	if c.onData != nil {
+		c.onData(r)
+	}
+}
+func (c *cls2Cb) OnLocalClose()  { atomic.AddInt32(&c.nLocal, 1) }
+func (c *cls2Cb) OnRemoteClose() { atomic.AddInt32(&c.nRemote, 1) }
+
+type cls2Registry struct {
+	mu   sync.Mutex
+	byID map[uint32]*cls2Cb
+	strs map[uint32]*Stream
+}
+
+func (r *cls2Registry) OnNewStream(s *Stream) {
+	r.mu.Lock()
+	cb := r.byID[s.id]
+	if cb == nil {
+		cb = &cls2Cb{}
+		r.byID[s.id] = cb
+	}
+	r.strs[s.id] = s
+	r.mu.Unlock()
+	cb.onData = func(rd BufferReader) {
+		if n := rd.Len(); n > 0 {
+			rd.ReadBytes(n)
+			rd.ReleasePreviousRead()
+		}
+	}
+	_ = s.SetCallbacks(cb)
+}
+func (r *cls2Registry) OnShutdown(string) {}
+
+func cls2SessionEnd(c *checkCtx, idx int) (viol []string, inc string) {
+	rng := caseRand(c.seed, 990000+idx)
+	who := []string{"local-session-close", "peer-session-close"}[idx%2]
+	reg := &cls2Registry{byID: map[uint32]*cls2Cb{}, strs: map[uint32]*Stream{}}
+	p, err := newSessionPair(pairOpt{noAccept: true, memfd: idx%4 < 2, serverCfg: func(cfg *Config) { cfg.listenCallback = reg }})
+	if err != nil {
+		return nil, "pair: " + err.Error()
+	}
+	defer p.close()
+	nStreams := 2 + rng.Intn(5)
+	var cls []*Stream
+	peerClosed := map[uint32]bool{}
+	for i := 0; i < nStreams; i++ {
+		st, err := p.client.OpenStream()
+		if err != nil {
+			return nil, "open: " + err.Error()
+		}
+		st.BufferWriter().WriteBytes(make([]byte, 1+rng.Intn(300)))
+		if err := st.Flush(false); err != nil {
+			return nil, "flush: " + err.Error()
+		}
+		cls = append(cls, st)
+	}
+	if !waitUntil(10*time.Second, func() bool { reg.mu.Lock(); defer reg.mu.Unlock(); return len(reg.strs) == nStreams }) {
+		return nil, "server streams did not appear"
+	}
+	// the peer (client) closes some of its streams: their server ends learn about it (OnRemoteClose) and stay half-closed
+	for i, st := range cls {
+		if i%2 == 0 || rng.Intn(3) == 0 {
+			st.Close()
+			peerClosed[st.id] = true
+		}
+	}
+	if !p.quiesce(10*time.Second) || !fenceN(2) {
+		return nil, "pair did not settle"
+	}
+	for id := range peerClosed {
+		cb := reg.byID[id]
+		if !waitUntil(5*time.Second, func() bool { return atomic.LoadInt32(&cb.nRemote) == 1 }) {
+			return nil, fmt.Sprintf("OnRemoteClose of stream %d not seen before the session end (C10's other scenarios judge that)", id)
+		}
+	}
+	// the session ends
+	if who == "local-session-close" {
+		p.server.Close()
+	} else {
+		p.client.Close()
+	}
+	if !waitUntil(10*time.Second, func() bool { fenceOnce(5 * time.Second); return p.server.IsClosed() }) || !waitTeardown(p.server, 10*time.Second) {
+		return nil, "server session did not end"
+	}
+	fenceN(2)
+	time.Sleep(5 * time.Millisecond)
+	for id, cb := range reg.byID {
+		l, r := atomic.LoadInt32(&cb.nLocal), atomic.LoadInt32(&cb.nRemote)
+		if peerClosed[id] {
+			if r != 1 || l != 0 {
+				viol = append(viol, fmt.Sprintf("session-end-after-peer-close (%s): stream %d had been closed by its peer (OnRemoteClose reported once, the local user had not closed) when the session ended: "+
+					"afterwards OnRemoteClose was called %d time(s) and OnLocalClose %d time(s); the closure it already knew about was reported again", who, id, r, l))
+			}
+		} else if l+r != 1 {
+			viol = append(viol, fmt.Sprintf("session-end (%s): stream %d was open when the session ended and got %d close callbacks (OnLocalClose %d, OnRemoteClose %d), expected exactly one", who, id, l+r, l, r))
+		}
+	}
+	return viol, ""
+}
+
+func cls2PutBackInOnData(c *checkCtx, idx int) (viol []string, inc string) {
+	rng := caseRand(c.seed, 995000+idx)
+	p, err := newSessionPair(pairOpt{memfd: idx%2 == 0})
+	if err != nil {
+		return nil, "pair: " + err.Error()
+	}
+	defer p.close()
+	pool := newStreamPool(uint32(1 + rng.Intn(4)))
+	pool.session.Store(p.client)
+	st, err := pool.getOrOpenStream()
+	if err != nil {
+		return nil, "getOrOpenStream: " + err.Error()
+	}
+	reply := 50 + rng.Intn(3000)
+	take := 1 + rng.Intn(reply-1)
+	cb := &cls2Cb{}
+	var putBackDone int32
+	cb.onData = func(r BufferReader) {
+		if atomic.LoadInt32(&cb.nData) > 1 {
+			return
+		}
+		// the user handles the head of the reply and gives the stream back with the rest unread
+		r.ReadBytes(take)
+		pool.putOrCloseStream(st)
+		atomic.StoreInt32(&putBackDone, 1)
+	}
+	if err := st.SetCallbacks(cb); err != nil {
+		return nil, "SetCallbacks: " + err.Error()
+	}
+	st.BufferWriter().WriteBytes(make([]byte, 32))
+	if err := st.Flush(false); err != nil {
+		return nil, "flush: " + err.Error()
+	}
+	sv := p.serverStream(st.StreamID(), 10*time.Second)
+	if sv == nil {
+		return nil, "server stream did not appear"
+	}
+	if _, err := sv.BufferReader().ReadBytes(32); err != nil {
+		return nil, "server read: " + err.Error()
+	}
+	sv.BufferReader().ReleasePreviousRead()
+	sv.BufferWriter().WriteBytes(make([]byte, reply))
+	if err := sv.Flush(false); err != nil {
+		return nil, "server flush: " + err.Error()
+	}
+	if !waitUntil(10*time.Second, func() bool { return atomic.LoadInt32(&putBackDone) == 1 }) {
+		return nil, "OnData / put-back did not happen"
+	}
+	cn := startCanary()
+	defer cn.close()
+	done := func() bool {
+		return st.getStreamState() == uint32(streamClosed) && p.client.getStreamById(st.id) != st && atomic.LoadInt32(&cb.nLocal) == 1
+	}
+	p.quiesce(10 * time.Second)
+	fenceN(2)
+	if !waitUntil(8*time.Second, done) {
+		if !cn.healthy(500 * time.Millisecond) {
+			return nil, "close not complete, scheduler canary unhealthy"
+		}
+		inTable := p.client.getStreamById(st.id) == st
+		viol = append(viol, fmt.Sprintf("putback-in-ondata: a pooled callback-mode stream was given back from inside OnData with %d of %d reply bytes unread; the pool has to close it, but with the pair "+
+			"quiescent and 8 s waited the stream is in state %d, %s the session's table (active streams %d), OnLocalClose %d, OnRemoteClose %d, callbackInProcess %d",
+			reply-take, reply, st.getStreamState(), map[bool]string{true: "still in", false: "not in"}[inTable], p.client.GetActiveStreamCount(),
+			atomic.LoadInt32(&cb.nLocal), atomic.LoadInt32(&cb.nRemote), atomic.LoadUint32(&st.callbackInProcess)))
+		return viol, ""
+	}
+	// the peer observes the end
+	sv.SetReadDeadline(time.Now().Add(8 * time.Second))
+	if _, err := sv.BufferReader().ReadBytes(1); err == nil || err == ErrTimeout {
+		if cn.healthy(500 * time.Millisecond) {
+			viol = append(viol, fmt.Sprintf("putback-in-ondata: the pool closed the stream but its peer does not observe end-of-stream (read returned %v)", err))
+		}
+	}
+	if r := atomic.LoadInt32(&cb.nRemote); r != 0 {
+		viol = append(viol, fmt.Sprintf("putback-in-ondata: OnRemoteClose fired %d time(s) although only the local end closed", r))
+	}
+	sv.Close()
+	return viol, ""
+}
+
+func clsDirectedExtra(c *checkCtx) {
+	n := c.pick(8, 120)
+	for i := 0; i < n; i++ {
+		for k, f := range []func(*checkCtx, int) ([]string, string){cls2SessionEnd, cls2PutBackInOnData} {
+			kind := []string{"session-end-after-peer-close", "putback-in-ondata"}[k]
+			viol, inc := f(c, i)
+			name := fmt.Sprintf("%s#%d", kind, i)
+			if inc != "" && len(viol) == 0 {
+				c.inconclusiveCase(name, inc)
+				continue
+			}
+			c.eval(1)
+			c.count(kind+" cases", 1)
+			c.nontrivial(fmt.Sprintf("%s/%d", kind, i%4))
+			if len(viol) > 0 {
+				c.violation(name, map[string]interface{}{"index": i, "violations": viol}, "%s", viol[0])
+			}
+		}
+	}
 }
